@@ -6,11 +6,15 @@ import os
 import z3
 
 from . import sym as S
+from ..speclang import lower_spec
 from .sym import (SInt, SBool, SStr, SReal, SVal, SSeq, SMap, SFunc, Opaque,
                   TInt, TBool, TStr, TReal, TVal, TSeq, Unsupported)
 from .interp import (Interp, Frame, FuncRef, ClassRef, ModuleRef, Model,
                      MList, BoundMethod, ExcVal, ReturnSig, RaiseSig,
                      BreakSig, ContinueSig, CutPath, BUILTIN_EXC)
+
+
+CONST_MODULES = {'string'}
 
 
 class RepoModule:
@@ -99,6 +103,8 @@ class World:
         self.eq_models = []
         self.setattr_models = []
         self.opaque_globals = {}    # (module, name) -> value override
+        self.opaque_sigs = {}       # method name -> fn(recv, args, kw, it)
+        self.opaque_attrs = {}      # attribute name -> fn(recv, it)
         self.loop_contracts = {}    # set per verification
         self.current_contract = None
         self.inlined = set()
@@ -179,6 +185,17 @@ class World:
             return self.lib[key]
         if (modname + '.' + attr,) in self.lib:
             return ModuleRef(modname + '.' + attr)
+        if modname in CONST_MODULES:
+            real = __import__(modname)
+            if hasattr(real, attr):
+                v = getattr(real, attr)
+                if isinstance(v, (str, int, float, bool, tuple)):
+                    self.trusted_used.add('%s.%s (constant of the running '
+                                          'interpreter)' % key)
+                    return v
+            else:
+                it.raise_('AttributeError', "module '%s' has no attribute "
+                          "'%s'" % key)
         raise Unsupported('no model for %s.%s' % (modname, attr))
 
     # ------------------------------------------------------ classes ----
@@ -274,6 +291,8 @@ class World:
                 return it.eval(m.value, Frame(module=owner.module))
         if isinstance(obj, ExcVal) and name == 'args':
             return tuple(obj.args)
+        if isinstance(obj, WriteLog) and name in ('keys', 'vals'):
+            return getattr(obj, name)
         for m in self.attr_models:
             r = m(obj, name, it)
             if r is not NotImplemented:
@@ -334,7 +353,22 @@ class World:
         if isinstance(obj, SMapCell):
             obj.store(idx, v)
             return True
+        if isinstance(obj, WriteLog):
+            obj.write(idx, v)
+            return True
         return NotImplemented
+
+    def opaque_sig(self, name, ret='Val', nargs=None):
+        """Declare method `name` of opaque objects as an uninterpreted
+        function of the receiver and its (boxed) arguments."""
+        from . import models
+
+        def call(recv, args, kw, it):
+            if kw:
+                raise Unsupported('keywords to opaque method %s' % name)
+            self.trusted_used.add('opaque method .%s() uninterpreted' % name)
+            return models.apply_uf('m.' + name, (recv,) + tuple(args), ret)
+        self.opaque_sigs[name] = call
 
     def delitem_model(self, obj, idx, it, node):
         if isinstance(obj, dict) and not S.is_sym(idx):
@@ -350,6 +384,21 @@ class World:
         raise Unsupported('del item of %r' % (obj,))
 
     def unpack_model(self, v, n, it, node):
+        if isinstance(v, SVal):
+            # an opaque value unpacks only if it is an iterable of n items;
+            # modelled kinds: str (its characters); None / numbers raise
+            is_str = S.tag_fn(v.t) == 4
+            if it.branch(is_str):
+                s = S.unbox_str(v.t)
+                if it.branch(z3.Length(s) == n):
+                    return [SStr(z3.SubString(s, i, 1)) for i in range(n)]
+                it.raise_('ValueError', 'unpack arity', node=node)
+            if it.branch(S.tag_fn(v.t) < 4):
+                it.raise_('TypeError', 'cannot unpack non-iterable',
+                          node=node)
+            raise Unsupported('unpack of opaque non-scalar value')
+        if hasattr(v, 'unpack'):
+            return v.unpack(n, it, node)
         return NotImplemented
 
     # ------------------------------------------------- iteration ----
@@ -545,6 +594,11 @@ class World:
         elif isinstance(cur, SMapCell):
             cur.m = S.TMap(cur.m.key_t, cur.m.val_t).fresh(nm, facts)
             new = cur
+        elif isinstance(cur, WriteLog):
+            cur.keys.seq = TSeq(cur.keys.seq.elem).fresh(nm + '.keys', facts)
+            cur.vals.seq = TSeq(TVal).fresh(nm + '.vals', facts)
+            facts.append(cur.keys.seq.length == cur.vals.seq.length)
+            new = cur
         elif isinstance(cur, SSeq):
             new = TSeq(cur.elem).fresh(nm, facts)
             new.kind = cur.kind
@@ -560,6 +614,8 @@ class World:
             new = TVal.fresh(nm)
         elif isinstance(cur, tuple):
             new = tuple(_fresh_like(x, nm) for x in cur)
+        elif isinstance(cur, dict) and all(isinstance(k, str) for k in cur):
+            new = {k: _fresh_like(v, nm + '.' + k) for k, v in cur.items()}
         else:
             raise Unsupported('cannot havoc %s = %r (declare havoc type in '
                               'the loop contract)' % (nm, cur))
@@ -583,7 +639,7 @@ class World:
 
     def spec_eval(self, it, text, frame):
         """Evaluate a contract expression (pure, merging) to a value."""
-        tree = ast.parse(text.strip(), mode='eval').body
+        tree = lower_spec(ast.parse(text.strip(), mode='eval')).body
         sub = Interp(self, it.path, spec=True)
         sub.out = it.out
         sub.ghost_vars = it.ghost_vars
@@ -659,6 +715,21 @@ class World:
             it.depth -= 1
             res, it.out = it.out, saved
         return res.seq
+
+
+class WriteLog:
+    """A mapping observed only through its writes (ghost write log): two
+    parallel sequences of keys and boxed values."""
+
+    def __init__(self, key_t=TStr):
+        self.keys = MList(SSeq(z3.IntVal(0), z3.K(z3.IntSort(), key_t.unwrap(
+            '' if key_t is TStr else 0)), key_t, kind='list'))
+        self.vals = MList(SSeq(z3.IntVal(0), z3.K(z3.IntSort(), S.NONE_VAL),
+                               TVal, kind='list'))
+
+    def write(self, k, v):
+        self.keys.seq = S.seq_append(self.keys.seq, k)
+        self.vals.seq = S.seq_append(self.vals.seq, SVal(S.box_any(v)))
 
 
 class SMapCell:
